@@ -146,17 +146,26 @@ func runC05BG(t *testing.T, p *Plan) *Outcome {
 		o.Log = s.Log
 		s.KillInstance(1)
 		// ---- twin: same seeding, background work done before the commands, commands alone
-		twin := boot(2, filepath.Join(root, "b"))
-		if twin == nil {
-			return
-		}
-		tw := s.NewEmbeddedClient(twin, "w")
+		// (some handlers iterate over Go maps: the same commands can answer differently from one execution to the
+		// next, so the twin is repeated; the run with background work only has to agree with one of them)
+		var want map[string]string
 		var twinAcked []string
-		for _, op := range p.Ops {
-			twinAcked = append(twinAcked, tw.DoSync(op.Args...).String())
+		for rep := 0; rep < 8; rep++ {
+			twin := boot(2+rep, filepath.Join(root, fmt.Sprintf("b%d", rep)))
+			if twin == nil {
+				return
+			}
+			tw := s.NewEmbeddedClient(twin, "w")
+			twinAcked = nil
+			for _, op := range p.Ops {
+				twinAcked = append(twinAcked, tw.DoSync(op.Args...).String())
+			}
+			want = StripExpired(twin.DB.VerifDump(), now, false)
+			s.KillInstance(2 + rep)
+			if mapsEqual(got, want) && strings.Join(acked, "|") == strings.Join(twinAcked, "|") {
+				break
+			}
 		}
-		want := StripExpired(twin.DB.VerifDump(), now, false)
-		s.KillInstance(2)
 		if !mapsEqual(got, want) {
 			fail("background-changed-data", fmt.Sprintf("write commands %v with the background expiry pass / SAVE / REWRITEAOF (%v) running next to them: the final dataset differs from the one the commands alone produce: %s", opsStrings(p.Ops), names, DiffData(got, want, "with background work", "commands alone", 4)))
 		} else if strings.Join(acked, "|") != strings.Join(twinAcked, "|") {
